@@ -406,7 +406,7 @@ def enum_cases(tier, seed):
                  for i, j in itertools.combinations(range(n), 2)
                  for a in kinds for b in kinds]
         if tier == "quick":
-            pairs = rng.sample(pairs, min(len(pairs), 70))
+            pairs = rng.sample(pairs, min(len(pairs), 160))
         for p in pairs:
             yield dict(c, script=p)
 
@@ -416,12 +416,12 @@ LEGS = [
         shards_quick=12, shards_thorough=16,
         rule="8 hand-written + seeded configurations (40 quick / 300 "
              "thorough) x {fault-free, every single fault, every pair of "
-             "faults (quick: 70 seeded pairs per configuration)} in {lose, "
+             "faults (quick: 160 seeded pairs per configuration)} in {lose, "
              "corrupt} over the first min(24, length) frame slots of the "
              "fault-free run; non-trivial = a fault hit a chained (I++) PDU, "
              "an ACK, an ATN/NAK recovery frame, or a step after the PNI "
              "wrap (step index >= 4)."),
-    Leg("random", run=run, gen=lambda tier: st_case(), quick=1600,
+    Leg("random", run=run, gen=lambda tier: st_case(), quick=3200,
         thorough=30000, shards_quick=8, shards_thorough=16, nt_floor=0.3,
         rule="Hypothesis: brs 0-2 x start 106A/212F/424F x lri/lrt 0-3 x "
              "rwt 0-14 x DID none/1..14 x NAD none/0..255 x general bytes x "
@@ -429,7 +429,7 @@ LEGS = [
              "(sparse: <= 4 faults in slots 0..70, dense: 5-40 % of 100 "
              "slots); same non-trivial rule."),
     Leg("clean", run=run_clean, gen=lambda tier: st_case(faults=False),
-        quick=500, thorough=8000, shards_quick=4, shards_thorough=8,
+        quick=800, thorough=8000, shards_quick=4, shards_thorough=8,
         nt_floor=0.3,
         rule="fault-free conversations over the same configuration space "
              "(complete delivery, LR, framing); non-trivial = at least 5 "
